@@ -74,8 +74,8 @@ Proof.
   - cbn in W. destruct W as [Hb Wt]. cbn [embed lens_of]. specialize (IH Wt). destruct (embed t) as [c w r ao]. rewrite lens_eq in *. exact IH.
   - cbn in W. destruct W as [_ Wl]. fold (wf_all l) in Wl. cbn [embed lens_of]. rewrite lens_eq. cbn [app].
     rewrite flat_map_app, <- (flat_map_lens _ IH Wl). destruct (tr || match l with [] => true | _ => false end); cbn; rewrite ?app_nil_r; reflexivity.
-  - cbn in W. destruct W as [Wt _]. cbn [embed lens_of]. rewrite lens_eq. cbn [flat_map]. rewrite app_nil_r, (IH Wt).
-    destruct len as [[n|s]|]; reflexivity.
+  - cbn in W. destruct W as [Wt Hlen]. cbn [embed lens_of]. rewrite lens_eq. cbn [flat_map]. rewrite app_nil_r, (IH Wt).
+    destruct len as [[n|s]|]; [reflexivity| |reflexivity]. rewrite (pr_name s Hlen). reflexivity.
   - reflexivity.
   - reflexivity.
 Qed.
